@@ -1025,6 +1025,10 @@ def check_escaper_ranges(col, rule: str, repo: Repo):
             items = [t.left] + list(t.comparators)
             vals = []
             for it in items:
+                if isinstance(it, ast.Name) and it.id != ch:
+                    ds_ = defs_of(fn, it.id)          # a local that names the code point (code_point = ord(c))
+                    if len(ds_) == 1:
+                        it = ds_[0]
                 if isinstance(it, ast.Call) and call_name(it) == "ord" and src(it.args[0]) == ch:
                     vals.append(cp)
                 elif isinstance(it, ast.Constant) and isinstance(it.value, int):
@@ -1611,4 +1615,45 @@ def selected_by_type(fn: ast.AST, target_src: str, class_name: str) -> Optional[
                 want = [g for g in gs if g[1] and re.fullmatch(rf"isinstance\({lps[0].target.id}, (\w+\.)*{class_name}\)", g[0])]
                 if want and len(gs) == 1:
                     return src(lps[0].iter)
+    return None
+
+
+def mapped_list(fn: ast.AST, target_src: str) -> Optional[Tuple[str, ast.AST, str]]:
+    """(source, per-item expression, item variable) when <target> is assigned, once, the list of E(x) for every x of <source>, in order:
+         target = [E for x in S]      |     tmp = []; for x in S: tmp.append(E) (nothing else in the loop decides or leaves); target = tmp
+         target = list(map(f, S))  (E is then the call f(x))"""
+    from sa.core.paths import guards, parent_map, enclosing
+    assigned = [st for st in walk_no_nested(fn) if isinstance(st, ast.Assign) and len(st.targets) == 1 and src(st.targets[0]) == target_src]
+    if len(assigned) != 1:
+        return None
+    v = assigned[0].value
+    if isinstance(v, ast.ListComp) and len(v.generators) == 1 and not v.generators[0].ifs and isinstance(v.generators[0].target, ast.Name):
+        return src(v.generators[0].iter), v.elt, v.generators[0].target.id
+    if isinstance(v, ast.Call) and isinstance(v.func, ast.Name) and v.func.id == "list" and len(v.args) == 1 and isinstance(v.args[0], ast.Call) \
+            and isinstance(v.args[0].func, ast.Name) and v.args[0].func.id == "map" and len(v.args[0].args) == 2:
+        f_, s_ = v.args[0].args
+        x = ast.Name(id="_x", ctx=ast.Load())
+        return src(s_), ast.Call(func=f_, args=[x], keywords=[]), "_x"
+    if isinstance(v, ast.Name):
+        tmp = v.id
+        pm = parent_map(fn)
+        inits = [st for st in walk_no_nested(fn) if isinstance(st, ast.Assign) and len(st.targets) == 1 and src(st.targets[0]) == tmp]
+        muts = [c for c in walk_no_nested(fn) if isinstance(c, ast.Call) and isinstance(c.func, ast.Attribute) and src(c.func.value) == tmp
+                and c.func.attr in ("append", "extend", "insert", "remove", "pop", "clear", "sort", "reverse")]
+        if len(inits) == 1 and src(inits[0].value) in ("[]", "list()") and muts and all(m.func.attr == "append" and len(m.args) == 1 for m in muts) \
+                and all(ordk(inits[0]) < ordk(m) < ordk(assigned[0]) for m in muts):
+            lps = enclosing(fn, muts[0], (ast.For,), pm)
+            if len(lps) == 1 and isinstance(lps[0].target, ast.Name) and all(enclosing(fn, m, (ast.For,), pm) == lps for m in muts) \
+                    and not any(isinstance(x, (ast.Break, ast.Continue, ast.Return, ast.Raise)) for x in ast.walk(lps[0])):
+                # exactly one append on every path through the loop body (an if/else with one append in each arm is one conditional value)
+                from sa.core.paths import enumerate_paths
+                fake = ast.FunctionDef(name="_", args=ast.arguments(posonlyargs=[], args=[], kwonlyargs=[], kw_defaults=[], defaults=[]),
+                                       body=lps[0].body, decorator_list=[], lineno=lps[0].lineno)
+                counts = [sum(1 for e in p.events if e.kind == "call" and any(e.node is m for m in muts)) for p in enumerate_paths(fake, unroll=1)]
+                if counts and all(c == 1 for c in counts):
+                    vals = [m.args[0] for m in muts]
+                    val = vals[0]
+                    for extra in vals[1:]:
+                        val = ast.IfExp(test=ast.Constant(value=True), body=val, orelse=extra)    # alternatives, read with conditional_defs_expr
+                    return src(lps[0].iter), val, lps[0].target.id
     return None
